@@ -455,9 +455,15 @@ pub fn op_pat(buf: &[u8]) -> String {
     let s = PatSection::new(buf);
     let items: Vec<String> = s
         .programs()
-        .map(|e| match e {
-            ProgramDescriptor::Network { pid } => format!("n:{}", u16::from(pid)),
-            ProgramDescriptor::Program { program_number, pid } => format!("p:{}:{}", program_number, u16::from(pid)),
+        .map(|e| {
+            // the public accessor `ProgramDescriptor::pid()` must agree with the variant's field
+            let acc = if match e {
+                ProgramDescriptor::Network { pid } | ProgramDescriptor::Program { pid, .. } => pid == e.pid(),
+            } { "" } else { "!pid()" };
+            match e {
+                ProgramDescriptor::Network { pid } => format!("n:{}{}", u16::from(pid), acc),
+                ProgramDescriptor::Program { program_number, pid } => format!("p:{}:{}{}", program_number, u16::from(pid), acc),
+            }
         })
         .collect();
     if items.is_empty() {
@@ -509,7 +515,11 @@ fn f_desc_item(r: Result<CoreDescriptors<'_>, DescriptorError>, raw: &[u8]) -> S
                     // FormatIdentifier: compare via its 4 bytes
                     let fi = r.format_identifier();
                     let fi_bytes = fmt_id_bytes(&fi);
-                    format!("{}:{}:{}", base, hex(&fi_bytes), hex(r.additional_identification_info()))
+                    // `is_format` compares with `format_identifier()`: true for its own identifier,
+                    // false for one that differs in the last byte
+                    let other = mpeg2ts_reader::smptera::FormatIdentifier::from(&[fi_bytes[0], fi_bytes[1], fi_bytes[2], fi_bytes[3] ^ 1][..]);
+                    let isf = if r.is_format(fi) && !r.is_format(other) { "" } else { "!is_format" };
+                    format!("{}:{}:{}{}", base, hex(&fi_bytes), hex(r.additional_identification_info()), isf)
                 }
                 CoreDescriptors::ISO639Language(l) => {
                     let ls: Vec<String> = l
